@@ -11,6 +11,7 @@ import (
 	"math"
 	"os"
 	"path/filepath"
+	"reflect"
 	"regexp"
 	"sort"
 	"strconv"
@@ -36,6 +37,8 @@ type jcase struct {
 	Bounds []*int32   `json:"bounds,omitempty"` // minx maxx miny maxy minz maxz; absent = nil bounds
 	Spans  [][4]int32 `json:"spans,omitempty"`
 	Pts    [][3]int32 `json:"pts,omitempty"`
+	Pts2   [][3]int32 `json:"pts2,omitempty"`
+	Scale  int        `json:"scale,omitempty"`
 	Steps  []vstep    `json:"steps,omitempty"` // version history of one ROI instance
 	Obs    int        `json:"obs,omitempty"`   // replay: the observation (1-based) to emit; 0 = all
 }
@@ -911,8 +914,204 @@ func doVbi(c jcase) {
 		fmt.Sprintf("vbi/%v/%v/%v/%s", c.P, c.Q, c.Size, runsKey(c.Spans)))
 }
 
+// ---- round 4: RLEs.Within / Offset / Stats, IZYXSlice operations ----
+func ptsKey(ps [][3]int32) string {
+	var sb strings.Builder
+	for _, p := range ps {
+		fmt.Fprintf(&sb, "%d,%d,%d;", p[0], p[1], p[2])
+	}
+	return sb.String()
+}
+
+func doWithin(c jcase) {
+	pts := make([]dvid.Point3d, len(c.Pts))
+	for i, p := range c.Pts {
+		pts[i] = dvid.Point3d{p[0], p[1], p[2]}
+	}
+	in := toRLEs(c.Runs).Within(pts)
+	sort.Ints(in)
+	ss := make([]string, len(in))
+	for i, k := range in {
+		ss[i] = z(int64(k))
+	}
+	if len(in) == 0 {
+		run.Count("within:none")
+	} else if len(in) == len(pts) {
+		run.Count("within:all")
+	} else {
+		run.Count("within:some")
+	}
+	run.Add("within", fmt.Sprintf("(KWithin %s %s [%s])", crl(c.Runs), cpts(c.Pts), strings.Join(ss, ";")), c,
+		"within/"+runsKey(c.Runs)+ptsKey(c.Pts))
+}
+
+func doOffset(c jcase) {
+	out := toRLEs(c.Runs).Offset(dvid.Point3d{c.P[0], c.P[1], c.P[2]})
+	run.Add("offset", fmt.Sprintf("(KOffset %s %s %s)", crl(c.Runs), cpt(c.P), crl(fromRLEs(out))), c,
+		fmt.Sprintf("offset/%v/", c.P)+runsKey(c.Runs))
+}
+
+func doStats(c jcase) {
+	nv, nr := toRLEs(c.Runs).Stats()
+	run.Add("stats", fmt.Sprintf("(KStats %s %s %s)", crl(c.Runs), fmt.Sprintf("%d", nv), z(int64(nr))), c,
+		"stats/"+runsKey(c.Runs))
+}
+
+func toIZYX(ps [][3]int32) dvid.IZYXSlice {
+	out := make(dvid.IZYXSlice, len(ps))
+	for i, p := range ps {
+		out[i] = dvid.ChunkPoint3d{p[0], p[1], p[2]}.ToIZYXString()
+	}
+	return out
+}
+func fromIZYX(s dvid.IZYXSlice) [][3]int32 {
+	out := make([][3]int32, len(s))
+	for i, k := range s {
+		p, err := k.ToChunkPoint3d()
+		if err != nil {
+			fmt.Fprintln(os.Stderr, "bad key returned by an IZYXSlice operation:", err)
+			os.Exit(2)
+		}
+		out[i] = [3]int32{p[0], p[1], p[2]}
+	}
+	return out
+}
+
+var izyxOps = map[string]int{"izyx-merge": 0, "izyx-mergecopy": 1, "izyx-delete": 2, "izyx-split": 3}
+
+func doIzyx(c jcase) {
+	a, b := toIZYX(c.Pts), toIZYX(c.Pts2)
+	var out dvid.IZYXSlice
+	switch c.Kind {
+	case "izyx-merge":
+		// spare capacity so that the append path of Merge writes into the receiver's array
+		recv := make(dvid.IZYXSlice, len(a), len(a)+2)
+		copy(recv, a)
+		recv.Merge(b)
+		out = recv
+	case "izyx-mergecopy":
+		out = a.MergeCopy(b)
+	case "izyx-delete":
+		recv := make(dvid.IZYXSlice, len(a))
+		copy(recv, a)
+		recv.Delete(b)
+		out = recv
+	case "izyx-split":
+		var err error
+		out, err = a.Split(b)
+		if err != nil {
+			fmt.Fprintln(os.Stderr, "IZYXSlice.Split error:", err)
+			os.Exit(2)
+		}
+	}
+	// the argument must not have been modified
+	if !reflect.DeepEqual(fromIZYX(b), append([][3]int32{}, c.Pts2...)) && len(b) > 0 {
+		fmt.Fprintln(os.Stderr, "IZYXSlice operation modified its argument")
+		os.Exit(2)
+	}
+	run.Count(fmt.Sprintf("%s:out=%d", c.Kind, bucket(len(out))))
+	run.Add(c.Kind, fmt.Sprintf("(KIzyx %d %s %s %s)", izyxOps[c.Kind], cptsE(c.Pts), cptsE(c.Pts2), cptsE(fromIZYX(out))), c,
+		c.Kind+"/"+ptsKey(c.Pts)+"/"+ptsKey(c.Pts2))
+}
+
+func cptsE(ps [][3]int32) string { return cpts(ps) }
+
+func optBounds(c jcase) (*dvid.OptionalBounds, string) {
+	if c.Bounds == nil {
+		return nil, "None"
+	}
+	ob := new(dvid.OptionalBounds)
+	set := []func(int32){ob.SetMinX, ob.SetMaxX, ob.SetMinY, ob.SetMaxY, ob.SetMinZ, ob.SetMaxZ}
+	for i, p := range c.Bounds {
+		if p != nil {
+			set[i](*p)
+		}
+	}
+	b := c.Bounds
+	return ob, fmt.Sprintf("(Some (OB %s %s %s %s %s %s))", copt(b[0]), copt(b[1]), copt(b[2]), copt(b[3]), copt(b[4]), copt(b[5]))
+}
+
+func doIFit(c jcase) {
+	ob, bt := optBounds(c)
+	out, err := toIZYX(c.Pts).FitToBounds(ob)
+	if err != nil {
+		fmt.Fprintln(os.Stderr, "IZYXSlice.FitToBounds error:", err)
+		os.Exit(2)
+	}
+	run.Add("izyx-fit", fmt.Sprintf("(KIFit %s %s %s)", cpts(c.Pts), bt, cpts(fromIZYX(out))), c, "ifit/"+bt+ptsKey(c.Pts))
+}
+
+func doIDown(c jcase) {
+	out, err := toIZYX(c.Pts).Downres(uint8(c.Scale))
+	if err != nil {
+		fmt.Fprintln(os.Stderr, "IZYXSlice.Downres error:", err)
+		os.Exit(2)
+	}
+	run.Count(fmt.Sprintf("izyx-downres:scale=%d", c.Scale))
+	run.Add("izyx-downres", fmt.Sprintf("(KIDown %s %d %s)", cpts(c.Pts), c.Scale, cpts(fromIZYX(out))), c,
+		fmt.Sprintf("idown/%d/", c.Scale)+ptsKey(c.Pts))
+}
+
+func doIBounds(c jcase) {
+	mn, mx, err := toIZYX(c.Pts).GetBounds()
+	if err != nil {
+		fmt.Fprintln(os.Stderr, "IZYXSlice.GetBounds error:", err)
+		os.Exit(2)
+	}
+	run.Add("izyx-bounds", fmt.Sprintf("(KIBounds %s %s %s)", cpts(c.Pts), cpt3(mn), cpt3(mx)), c, "ibounds/"+ptsKey(c.Pts))
+}
+
+// GET <roi>/partition?batchsize=N (roi.SimplePartition) on a fresh instance holding the spans
+func doRoiPart(c jcase) {
+	base, got, ok := newROI(c.Size, c.Spans)
+	if !ok {
+		fmt.Fprintln(os.Stderr, "roi-partition: POST/GET roi failed")
+		os.Exit(2)
+	}
+	r := dv.Get(fmt.Sprintf("%s/partition?batchsize=%d", base, c.Scale))
+	var rep struct {
+		NumActiveBlocks uint64
+		NumSubvolumes   int32
+		Subvolumes      []struct {
+			MinChunk, MaxChunk        [3]int32
+			TotalBlocks, ActiveBlocks uint64
+		}
+	}
+	if r.Status != 200 || json.Unmarshal(r.Body, &rep) != nil {
+		fmt.Fprintf(os.Stderr, "roi-partition: status %d: %.200s\n", r.Status, r.Body)
+		os.Exit(2)
+	}
+	ss := make([]string, len(rep.Subvolumes))
+	for i, v := range rep.Subvolumes {
+		ss[i] = fmt.Sprintf("(%s,%s,%d,%d)", cpt(v.MinChunk[:]), cpt(v.MaxChunk[:]), v.TotalBlocks, v.ActiveBlocks)
+	}
+	svs := "[]"
+	if len(ss) > 0 {
+		svs = "(svl [" + strings.Join(ss, ";") + "])"
+	}
+	run.Count(fmt.Sprintf("roi-partition:subvolumes=%d", bucket(len(ss))))
+	run.Add("roi-partition", fmt.Sprintf("(KRoiPart %d %s %s %d %d)", c.Scale, cspl(got), svs, rep.NumSubvolumes, rep.NumActiveBlocks), c,
+		fmt.Sprintf("roipart/%d/%v/", c.Scale, c.Size)+runsKey(c.Spans))
+}
+
 func dispatch(c jcase) {
 	switch c.Kind {
+	case "roi-partition":
+		doRoiPart(c)
+	case "within":
+		doWithin(c)
+	case "offset":
+		doOffset(c)
+	case "stats":
+		doStats(c)
+	case "izyx-merge", "izyx-mergecopy", "izyx-delete", "izyx-split":
+		doIzyx(c)
+	case "izyx-fit":
+		doIFit(c)
+	case "izyx-downres":
+		doIDown(c)
+	case "izyx-bounds":
+		doIBounds(c)
 	case "zyx":
 		doZyx(c)
 	case "decode":
@@ -1157,6 +1356,251 @@ func hitName(hit, layers int) string {
 }
 
 func i32p(v int32) *int32 { return &v }
+
+// ---- round 4 generators ----
+// sortedPts: n distinct block coordinates from a small universe around org (so that two sets drawn
+// from it share elements), sorted by (z, y, x); some coordinates negative.
+func sortedPts(rng *lib.Rand, n int, org [3]int32, span int) [][3]int32 {
+	seen := map[[3]int32]bool{}
+	var out [][3]int32
+	for tries := 0; len(out) < n && tries < 10*n+10; tries++ {
+		p := [3]int32{org[0] + int32(rng.Intn(span)), org[1] + int32(rng.Intn(2)), org[2] + int32(rng.Intn(2))}
+		if rng.Chance(0.1) {
+			p[rng.Intn(3)] = int32(rng.Pick(math.MinInt32+2, -(1 << 20), -257, 256, 1<<20, math.MaxInt32))
+		}
+		if !seen[p] {
+			seen[p] = true
+			out = append(out, p)
+		}
+	}
+	sortPts(out)
+	return out
+}
+func sortPts(ps [][3]int32) {
+	sort.Slice(ps, func(i, j int) bool {
+		a, b := ps[i], ps[j]
+		if a[2] != b[2] {
+			return a[2] < b[2]
+		}
+		if a[1] != b[1] {
+			return a[1] < b[1]
+		}
+		return a[0] < b[0]
+	})
+}
+
+// genPartSpans: pairwise disjoint spans in a few rows of a few block layers; the layers are [gap]
+// apart (gap <= batchsize: no layer of the partition is empty).
+func genPartSpans(rng *lib.Rand, nz int, gap func() int32) [][4]int32 {
+	var out [][4]int32
+	z := int32(rng.Pick(-7, -1, 0, 3))
+	for k := 0; k < nz; k++ {
+		y0 := int32(rng.Pick(-3, 0, 2))
+		for r := 1 + rng.Intn(3); r > 0; r-- {
+			y := y0 + int32(rng.Intn(6))
+			dup := false
+			for _, s := range out {
+				if s[0] == z && s[1] == y {
+					dup = true
+				}
+			}
+			if dup {
+				continue
+			}
+			x := int32(rng.Intn(9)) - 5
+			for n := 1 + rng.Intn(2); n > 0; n-- {
+				ln := int32(rng.Intn(6))
+				out = append(out, [4]int32{z, y, x, x + ln})
+				x += ln + 2 + int32(rng.Intn(4))
+			}
+		}
+		z += gap()
+	}
+	return out
+}
+
+func roiPartCases(rng *lib.Rand, mul int) {
+	bs := []int32{8, 8, 8}
+	// corpus: one block; one layer; two adjacent layers; a layer boundary inside the ROI
+	dispatch(jcase{Kind: "roi-partition", Size: bs, Scale: 1, Spans: [][4]int32{{0, 0, 0, 0}}})
+	dispatch(jcase{Kind: "roi-partition", Size: bs, Scale: 4, Spans: [][4]int32{{0, 0, 0, 1}}})
+	dispatch(jcase{Kind: "roi-partition", Size: bs, Scale: 2, Spans: [][4]int32{{-1, -1, -3, 3}, {0, 0, 0, 1}, {1, 5, 3, 9}, {2, 0, -1, -1}}})
+	dispatch(jcase{Kind: "roi-partition", Size: bs, Scale: 3, Spans: [][4]int32{{0, 0, 0, 6}, {0, 1, 2, 2}, {0, 1, 5, 9}, {3, 7, -4, 0}, {4, 0, 0, 0}}})
+	// a layer without any block between two occupied ones (recorded finding C18-roi-partition-empty-layer)
+	dispatch(jcase{Kind: "roi-partition", Size: bs, Scale: 4, Spans: [][4]int32{{0, 0, 0, 1}, {100, 0, 0, 1}}})
+	dispatch(jcase{Kind: "roi-partition", Size: bs, Scale: 2, Spans: [][4]int32{{0, 0, 0, 1}, {1, 5, 3, 9}, {5, 0, 0, 1}}})
+	for i := 0; i < 6*mul; i++ {
+		n := int32(rng.Pick(1, 2, 2, 3, 4))
+		dense := func() int32 { return 1 + int32(rng.Intn(int(n))) }
+		sp := genPartSpans(rng, 1+rng.Intn(4), dense)
+		dispatch(jcase{Kind: "roi-partition", Size: []int32{int32(rng.Pick(4, 8)), 8, int32(rng.Pick(8, 2))}, Scale: int(n), Spans: sp})
+		if i%3 == 0 {
+			sparse := func() int32 { return 2*n + 1 + int32(rng.Intn(5)) }
+			dispatch(jcase{Kind: "roi-partition", Size: bs, Scale: int(n), Spans: genPartSpans(rng, 2+rng.Intn(2), sparse)})
+		}
+	}
+}
+
+func round4(rng *lib.Rand, mul int) {
+	// corpus
+	dispatch(jcase{Kind: "within", Runs: [][4]int32{{-2, 0, -1, 4}}, Pts: [][3]int32{{-3, 0, -1}, {-2, 0, -1}, {1, 0, -1}, {2, 0, -1}, {0, 1, -1}, {0, 0, 0}, {-2, 0, -1}}})
+	dispatch(jcase{Kind: "within", Runs: nil, Pts: [][3]int32{{0, 0, 0}}})
+	dispatch(jcase{Kind: "within", Runs: [][4]int32{{0, 0, 0, 3}}, Pts: nil})
+	dispatch(jcase{Kind: "within", Runs: [][4]int32{{math.MaxInt32 - 2, 0, 0, 5}}, Pts: [][3]int32{{math.MaxInt32, 0, 0}, {math.MaxInt32 - 2, 0, 0}, {math.MinInt32, 0, 0}}}) // start+length wraps
+	dispatch(jcase{Kind: "offset", Runs: [][4]int32{{-2, 0, -1, 4}, {5, 7, 9, 1}}, P: []int32{3, -4, 5}})
+	dispatch(jcase{Kind: "offset", Runs: nil, P: []int32{1, 1, 1}})
+	dispatch(jcase{Kind: "offset", Runs: [][4]int32{{math.MinInt32, math.MaxInt32, 0, 2}}, P: []int32{1, -1, math.MinInt32}}) // wraps
+	dispatch(jcase{Kind: "offset", Runs: [][4]int32{{-(1 << 29), -(1 << 30), (1 << 30) - 1, 1 << 30}}, P: []int32{(1 << 30) - 1, (1 << 30) - 1, -(1 << 30)}})
+	dispatch(jcase{Kind: "stats", Runs: nil})
+	dispatch(jcase{Kind: "stats", Runs: [][4]int32{{0, 0, 0, 4}, {5, 0, 0, 4}, {-9, -1, -1, 1}}})
+	dispatch(jcase{Kind: "stats", Runs: [][4]int32{{0, 0, 0, 4}, {2, 0, 0, 4}}})                         // overlap: counted twice, no claim
+	dispatch(jcase{Kind: "stats", Runs: [][4]int32{{0, 0, 0, math.MaxInt32}, {0, 1, 0, math.MaxInt32}}}) // sum above 2^31
+	dispatch(jcase{Kind: "stats", Runs: [][4]int32{{0, 0, 0, -1}, {0, 1, 0, 3}}})                        // a negative length sign-extends to uint64
+	for _, k := range []string{"izyx-merge", "izyx-mergecopy", "izyx-delete", "izyx-split"} {
+		a := [][3]int32{{-1, 0, -1}, {0, 0, 0}, {1, 0, 0}, {0, 1, 0}, {-5, -5, 1}}
+		dispatch(jcase{Kind: k, Pts: nil, Pts2: nil})
+		dispatch(jcase{Kind: k, Pts: a, Pts2: nil})
+		dispatch(jcase{Kind: k, Pts: nil, Pts2: a})
+		dispatch(jcase{Kind: k, Pts: a, Pts2: a})
+		dispatch(jcase{Kind: k, Pts: a[:2], Pts2: a[2:]})                                         // argument entirely above the receiver
+		dispatch(jcase{Kind: k, Pts: a[2:], Pts2: a[:2]})                                         // entirely below
+		dispatch(jcase{Kind: k, Pts: a[:3], Pts2: a[2:]})                                         // last of one = first of the other
+		dispatch(jcase{Kind: k, Pts: a[2:], Pts2: a[:3]})                                         //
+		dispatch(jcase{Kind: k, Pts: [][3]int32{a[0], a[2], a[4]}, Pts2: [][3]int32{a[1], a[3]}}) // interleaved
+		dispatch(jcase{Kind: k, Pts: [][3]int32{a[1], a[3]}, Pts2: [][3]int32{a[0], a[2], a[4]}}) //
+		dispatch(jcase{Kind: k, Pts: a, Pts2: [][3]int32{a[4]}})                                  // only the last
+		dispatch(jcase{Kind: k, Pts: a, Pts2: [][3]int32{a[0]}})                                  // only the first
+		dispatch(jcase{Kind: k, Pts: [][3]int32{a[2]}, Pts2: a})                                  //
+		dispatch(jcase{Kind: k, Pts: [][3]int32{a[3], a[0], a[3]}, Pts2: [][3]int32{a[3], a[1]}}) // unsorted with a repeat: model only
+		dispatch(jcase{Kind: k, Pts: [][3]int32{{math.MinInt32, 0, 0}, {-1, 0, 0}, {0, 0, 0}, {math.MaxInt32, 0, 0}}, Pts2: [][3]int32{{-1, 0, 0}, {math.MaxInt32, 0, 0}, {0, 0, math.MaxInt32}}})
+	}
+	dispatch(jcase{Kind: "izyx-bounds", Pts: nil})
+	dispatch(jcase{Kind: "izyx-bounds", Pts: [][3]int32{{3, -4, 5}}})
+	dispatch(jcase{Kind: "izyx-bounds", Pts: [][3]int32{{math.MaxInt32, math.MaxInt32, math.MaxInt32}}})
+	dispatch(jcase{Kind: "izyx-bounds", Pts: [][3]int32{{-2147483646, 0, 0}, {-2147483646, -2147483646, -2147483646}}}) // the lowest coordinate the initial maximum allows
+	dispatch(jcase{Kind: "izyx-bounds", Pts: [][3]int32{{-2147483647, 0, 0}}})                                          // below it: model only (see notes, C18-4)
+	dispatch(jcase{Kind: "izyx-bounds", Pts: [][3]int32{{math.MinInt32, math.MinInt32, 7}, {math.MinInt32, 0, 7}}})
+	for _, sc := range []int{0, 1, 2, 5, 30, 31, 32, 33, 64, 255} {
+		dispatch(jcase{Kind: "izyx-downres", Scale: sc, Pts: [][3]int32{{-1, 0, 1}, {-2, 1, 2}, {-3, 3, 3}, {-4, 2, 0}, {4, -4, 5}, {math.MinInt32, math.MaxInt32, -1}, {-1, 0, 1}}})
+	}
+	dispatch(jcase{Kind: "izyx-downres", Scale: 1, Pts: nil})
+	dispatch(jcase{Kind: "izyx-fit", Pts: [][3]int32{{0, 0, 0}, {1, 0, 0}, {0, 1, 0}, {0, 0, 1}, {5, 5, 1}, {0, 0, 2}}})
+	dispatch(jcase{Kind: "izyx-fit", Pts: [][3]int32{{0, 0, 0}, {1, 0, 0}, {0, 1, 0}, {0, 0, 1}, {5, 5, 1}, {0, 0, 2}}, Bounds: []*int32{nil, nil, nil, nil, i32p(1), i32p(1)}})
+	dispatch(jcase{Kind: "izyx-fit", Pts: [][3]int32{{0, 0, 2}, {0, 0, 0}, {0, 0, 1}}, Bounds: []*int32{nil, nil, nil, nil, nil, i32p(1)}}) // unsorted: the loop stops at the first z above maxz (model only)
+
+	{ // every single bound at 0 and at 1 on the sorted 2x2x2 cube: a `continue` that leaves the loop loses later layers
+		var cube [][3]int32
+		for zc := int32(0); zc < 2; zc++ {
+			for yc := int32(0); yc < 2; yc++ {
+				for xc := int32(0); xc < 2; xc++ {
+					cube = append(cube, [3]int32{xc - 1, yc, zc + 5})
+				}
+			}
+		}
+		for k := 0; k < 6; k++ {
+			for v := int32(0); v < 2; v++ {
+				bd := make([]*int32, 6)
+				bd[k] = i32p(v + []int32{-1, 0, 5}[k/2])
+				dispatch(jcase{Kind: "izyx-fit", Pts: cube, Bounds: bd})
+			}
+		}
+	}
+	// random
+	for i := 0; i < 12*mul; i++ {
+		bs := int32(rng.Pick(8, 1, 3, 32, 5))
+		runs, merged := genRuns(rng, bs, 4)
+		var pts [][3]int32
+		for _, m := range merged {
+			for _, x := range []int32{m.x0 - 1, m.x0, m.x1 - 1, m.x1} {
+				if rng.Chance(0.6) {
+					pts = append(pts, [3]int32{x, m.y, m.z})
+				}
+			}
+			if rng.Chance(0.5) {
+				pts = append(pts, [3]int32{m.x0, m.y + int32(rng.Pick(-1, 1)), m.z}, [3]int32{m.x0, m.y, m.z + int32(rng.Pick(-1, 1))})
+			}
+		}
+		for k := rng.Intn(4); k > 0; k-- {
+			pts = append(pts, [3]int32{int32(rng.Intn(41)) - 20, int32(rng.Intn(5)) - 2, int32(rng.Intn(5)) - 2})
+		}
+		if len(pts) > 1 && rng.Chance(0.5) { // the same point twice: two indices
+			pts = append(pts, pts[rng.Intn(len(pts))])
+		}
+		for k := len(pts) - 1; k > 0; k-- {
+			j := rng.Intn(k + 1)
+			pts[k], pts[j] = pts[j], pts[k]
+		}
+		dispatch(jcase{Kind: "within", Runs: runs, Pts: pts})
+		if i%4 == 0 { // overlapping runs
+			other, _ := genRuns(rng, bs, 2)
+			dispatch(jcase{Kind: "within", Runs: append(append([][4]int32{}, runs...), other...), Pts: pts})
+		}
+		d := []int32{int32(rng.Intn(65)) - 32, int32(rng.Intn(17)) - 8, int32(rng.Intn(17)) - 8}
+		switch rng.Intn(5) {
+		case 0:
+			d = []int32{0, 0, 0}
+		case 1:
+			d = []int32{-(1 << 30), (1 << 30) - 1, int32(rng.Pick(-(1 << 30), (1<<30)-1))}
+		case 2:
+			d[rng.Intn(3)] = pickCoord(rng) // may wrap: model only
+		}
+		dispatch(jcase{Kind: "offset", Runs: runs, P: d})
+		dispatch(jcase{Kind: "stats", Runs: runs})
+	}
+	for i := 0; i < 14*mul; i++ {
+		org := [3]int32{int32(rng.Pick(-3, 0, -1, 1000)), int32(rng.Pick(-1, 0, 7)), int32(rng.Pick(-1, 0, -40))}
+		span := rng.Pick(3, 5, 8)
+		a := sortedPts(rng, rng.Intn(9), org, span)
+		var b [][3]int32
+		switch rng.Intn(6) {
+		case 0: // subset of a
+			for _, p := range a {
+				if rng.Chance(0.5) {
+					b = append(b, p)
+				}
+			}
+		case 1: // a far-away set
+			b = sortedPts(rng, 1+rng.Intn(4), [3]int32{org[0], org[1], org[2] + int32(rng.Pick(-9, 9))}, span)
+		default:
+			b = sortedPts(rng, rng.Intn(9), org, span)
+		}
+		k := []string{"izyx-merge", "izyx-mergecopy", "izyx-delete", "izyx-split"}
+		dispatch(jcase{Kind: k[i%4], Pts: a, Pts2: b})
+		dispatch(jcase{Kind: k[(i+1+rng.Intn(3))%4], Pts: a, Pts2: b})
+		if i%7 == 0 && len(a) > 2 { // unsorted receiver: model only
+			u := append([][3]int32{}, a...)
+			u[0], u[len(u)-1] = u[len(u)-1], u[0]
+			dispatch(jcase{Kind: k[rng.Intn(4)], Pts: u, Pts2: b})
+		}
+		// block bounds around the set
+		l := sortedPts(rng, 2+rng.Intn(10), org, span)
+		var bd []*int32
+		if rng.Chance(0.85) {
+			bd = make([]*int32, 6)
+			for ax := 0; ax < 3; ax++ {
+				lo := org[ax] + int32(rng.Intn(3)) - 1
+				if rng.Chance(0.5) {
+					bd[2*ax] = i32p(lo)
+				}
+				if rng.Chance(0.5) {
+					bd[2*ax+1] = i32p(lo + int32(rng.Intn(3)) - int32(rng.Pick(0, 0, 0, 1)))
+				}
+			}
+		}
+		dispatch(jcase{Kind: "izyx-fit", Pts: l, Bounds: bd})
+		// down-resolution of a (possibly shuffled, possibly repeated) list
+		dl := append([][3]int32{}, l...)
+		if rng.Chance(0.5) {
+			for q := len(dl) - 1; q > 0; q-- {
+				j := rng.Intn(q + 1)
+				dl[q], dl[j] = dl[j], dl[q]
+			}
+			dl = append(dl, dl[0])
+		}
+		dispatch(jcase{Kind: "izyx-downres", Scale: rng.Pick(0, 1, 1, 2, 3, 4, 20, 31, 32), Pts: dl})
+		dispatch(jcase{Kind: "izyx-bounds", Pts: dl})
+	}
+}
 
 func main() {
 	o := lib.ParseOpts()
@@ -1403,6 +1847,11 @@ func main() {
 			}
 		}
 	}
+	// ---- round 4: RLEs.Within / Offset / Stats and the IZYXSlice operations (own random stream, so
+	// the streams of the older case families stay what they were) ----
+	round4(lib.NewRand(o.Seed+0x52340000), mul)
+	roiPartCases(lib.NewRand(o.Seed+0x52350000), mul)
+
 	// ---- ROI version histories (HTTP): every version against its own spans ----
 	for i := 0; i < 6*mul; i++ {
 		dispatch(genRoiVer(rng))
